@@ -116,3 +116,20 @@ func verifHarness_f02_ok() {
 	verifAssert(verifSchedEnqueues() == 5, 6)
 	verifCover(f != 0, 1)
 }
+
+// C12 (generated plumbing): any task of Flow02 may fail or panic, so the flow
+// can return early while independent siblings are still in flight
+func verifHarness_f02_fail() {
+	ctx := verifNdCtx(false)
+	a := A(verifNdInt(1))
+	verifAllow("T4", 7)
+	verifAllow("T5", 5)
+	verifAllow("T6", 5)
+	verifAllow("T7", 7)
+	verifAllow("S1", 5)
+	var f F
+	var d D
+	err := Flow02(ctx, a, &f, &d)
+	verifCover(err != nil, 1)
+	verifCover(err == nil, 2)
+}
